@@ -450,6 +450,70 @@ def builtin_scenarios(ctx, out):
     out.coverage['builtin_container_attributes_checked'] = cnt
 
 
+def exotic_type_scenarios(ctx, out):
+    """user data types given by a Java class name of a concrete collection, and factory data types over Python classes
+    other than dict / list / set: whatever a never-set attribute starts out with, two objects never hold the SAME
+    mutable object, and an in-place edit through one is invisible to the other and to objects created later"""
+    common.use_repo()
+    import collections
+    from pyecore import ecore as E
+
+    class MyList(list):
+        pass
+
+    class Bag:
+        def __init__(self):
+            self.items = []
+    IMMUTABLE = (int, str, bool, float, tuple, frozenset, bytes, type(None))
+    makers = [(f'icn:{n}', (lambda n=n: E.EDataType('J', instanceClassName=n))) for n in
+              ('java.util.HashMap', 'java.util.LinkedHashMap', 'java.util.TreeMap', 'java.util.ArrayList', 'java.util.LinkedList',
+               'java.util.HashSet', 'java.util.Map', 'java.util.List', 'java.util.Set', 'java.util.Collection')]
+    makers += [(f'factory:{c.__name__}', (lambda c=c: E.EDataType('F', c, type_as_factory=True))) for c in
+               (collections.OrderedDict, collections.deque, collections.defaultdict, MyList, Bag, bytearray)]
+    cnt = 0
+    for label, mk in makers:
+        for how in ('ctor', 'late'):
+            try:
+                dt = mk()
+                A = E.EClass('A')
+                if how == 'ctor':
+                    f = E.EAttribute('p', dt)
+                else:
+                    f = E.EAttribute('p')
+                    f.eType = dt
+                A.eStructuralFeatures.append(f)
+                a, b = A(), A()
+                va, vb = a.p, b.p
+            except Exception:  # noqa  (a declaration pyecore does not support: not this property's subject)
+                continue
+            cnt += 1
+            case = {'scenario': 'exotic', 'seed': ctx.seed, 'tier': ctx.tier, 'history': [[label, how]]}
+            sig = {'property': PID, 'clause': 'private', 'dtype': label, 'source': how}
+            if va is vb and not isinstance(va, IMMUTABLE):
+                out.fail(sig, f'{label} ({how}): two objects hold the very same {type(va).__name__} object as their never-set value', case)
+                continue
+            before = repr(vb)
+            try:
+                if isinstance(va, dict):
+                    va['k'] = 'v'
+                elif isinstance(va, (list, collections.deque, bytearray)):
+                    va.append(7)
+                elif isinstance(va, set):
+                    va.add(7)
+                elif isinstance(va, Bag):
+                    va.items.append(7)
+            except Exception:  # noqa
+                continue
+            c = A()
+            if repr(b.p) != before and not repr(b.p).startswith('<'):
+                out.fail(sig, f'{label} ({how}): editing a.p in place changed what b.p reads: {before} -> {b.p!r}', case)
+            elif isinstance(va, (dict, list, set, collections.deque, bytearray)) and repr(c.p) != before:
+                out.fail(dict(sig, clause='default'), f'{label} ({how}): an object created after the edit starts with {c.p!r}, the others started with {before}', case)
+            elif a.eIsSet(f) or b.eIsSet(f):
+                out.fail(dict(sig, clause='read-changed-isset'), f'{label} ({how}): reading marked the feature as set', case)
+    out.coverage['exotic_data_type_declarations'] = cnt
+
+
 def ctor_scenarios(ctx, out):
     """values given as CONSTRUCTOR keywords are writes like any other: A(x=v) reads v - also v = None for an attribute
     whose declared default is not None -, reports eIsSet, and a sibling created bare still reads the default"""
@@ -535,11 +599,12 @@ def run(ctx, out):   # noqa: F811
     many_valued_part(ctx, out)
     builtin_scenarios(ctx, out)
     ctor_scenarios(ctx, out)
+    exotic_type_scenarios(ctx, out)
 
 
 def replay(ctx, rep):
-    if rep.get('case', {}).get('scenario') in ('builtin', 'ctor'):
-        return common.scenario_replay(ctx, rep, {'builtin': builtin_scenarios, 'ctor': ctor_scenarios})
+    if rep.get('case', {}).get('scenario') in ('builtin', 'ctor', 'exotic'):
+        return common.scenario_replay(ctx, rep, {'builtin': builtin_scenarios, 'ctor': ctor_scenarios, 'exotic': exotic_type_scenarios})
     if 'templates' in rep.get('case', {}) or 'mm' in rep.get('case', {}):
         from harness import krun
         r = krun.Run(rep['case'], []).run()
